@@ -366,26 +366,26 @@ class C04(Spec):
         quick = tier == 'quick'
         cs = []
         # (a) random histories
-        nrand = (14 if quick else 400) * boost
+        nrand = (150 if quick else 2500) * boost
         for i in range(nrand):
             mode = rng.choice(['small', 'small', 'keytag', 'wide'])
             kinds = rng.choice([['A'], ['L'], ['T'], ['A', 'L'], ['A', 'L', 'T'], ['AS', 'LS'], list(KINDS)])
-            cs.append(Case(f'rand{i}', random_history(rng, 260 if quick else 500, kinds, mode, maxlen=rng.choice([12, 40, 90]))))
+            cs.append(Case(f'rand{i}', random_history(rng, 400 if quick else 500, kinds, mode, maxlen=rng.choice([12, 40, 90]))))
         # (b) growth sweeps
         for kind in KINDS:
             n = (70 if quick else 700) if kind != 'T' else (60 if quick else 300)
             cs.append(Case(f'sweep{kind}', growth_sweep(rng, kind, n)))
         # (c) index-exhaustive
         for kind in KINDS:
-            cs += chunks(f'idx{kind}', index_exhaustive(rng, kind, 3 if quick else 7), 450)
+            cs += chunks(f'idx{kind}', index_exhaustive(rng, kind, 4 if quick else 8), 450)
         # (d) sort inputs
         sizes = list(range(0, 12)) + ([17, 33, 64, 200] if quick else list(range(12, 70, 3)) + [100, 200, 500, 1000, 3000])
-        for rep in range((1 if quick else 6) * boost):
+        for rep in range((3 if quick else 12) * boost):
             cs += chunks(f'sort{rep}_', sort_cases(rng, sizes), 300)
         # (e) long containers
         for kind in KINDS:
             n = (3000 if quick else 20000) if kind != 'T' else (600 if quick else 2000)
-            for rep in range(1 if quick else 3):
+            for rep in range(2 if quick else 4):
                 cs.append(Case(f'big{kind}{rep}', big_case(rng, kind, n)))
         return cs
 
@@ -416,6 +416,7 @@ class C04(Spec):
     def model_selfcheck(self, case, m_out):
         # the model never reports `ub` or a diverging iteration on generated (duplicate-free) inputs
         for l in m_out.split('\n'):
+            if l.startswith('M '): return l
             if l.startswith('O ') and (' ub' in l or 'diverges' in l) and not l.startswith('O kf13'):
                 return f'model observation `{l[:200]}`'
         return None
